@@ -429,7 +429,7 @@ def mapspec_axes(mapspecs: list[MapSpec]) -> dict[str, tuple[str, ...]]:
             for i, axis in enumerate(arrayspec.axes):
                 if axis is not None:
                     axes[arrayspec.name][i] = axis
-    return {name: tuple(dct[i] for i in range(len(dct))) for name, dct in axes.items()}
+    return {name: tuple(dct[i] for i in sorted(dct)) for name, dct in axes.items()}
 
 
 def _validate_shapes(
